@@ -273,4 +273,246 @@ theorem inv2_sub {d : Disp} {e : Errno} {s s' : St} (t : Tid) (h : Inv2 e s)
         | (have hc := (scriptUni_cons (e := e) (by assumption)).1; simp_all; done)
         | grind))
 
+theorem inv2_step {d : Disp} {e : Errno} {s s' : St} (t : Thr) (h0 : Inv d s) (h : Inv2 e s)
+    (hs : step d s t = some s') : Inv2 e s' := by
+  cases t with
+  | main => exact inv2_main h0 h hs
+  | p => exact inv2_sub .p h hs
+  | r => exact inv2_sub .r h hs
+  | w => exact inv2_sub .w h hs
+
+theorem inv2_init (e : Errno) (ms ps rs ws : List Io) (hm : scriptUni e ms) (hp : scriptUni e ps)
+    (hr : scriptUni e rs) (hw : scriptUni e ws) : Inv2 e (init ms ps rs ws) := by
+  constructor <;> simp_all [init, mainUni, subUni, spoke]
+
+theorem inv2_reach {d : Disp} {e : Errno} {ms ps rs ws : List Io} {s : St}
+    (hm : scriptUni e ms) (hp : scriptUni e ps) (hr : scriptUni e rs) (hw : scriptUni e ws)
+    (h : Reach d (init ms ps rs ws) s) : Inv2 e s := by
+  induction h with
+  | init => exact inv2_init e ms ps rs ws hm hp hr hw
+  | step t hr' hs ih => exact inv2_step t (inv_reach hr') ih hs
+
+/-! ### Termination -/
+
+theorem stepMain_dec {d : Disp} {s s' : St} (hs : stepMain d s = some s') :
+    s'.weight < s.weight := by
+  unfold stepMain at hs
+  split at hs <;> (try split at hs) <;> (try split at hs) <;> simp at hs <;> subst hs <;>
+    simp_all [St.weight, Main.weight] <;> omega
+
+theorem stepSub_dec {d : Disp} {s s' : St} (t : Tid) (hs : stepSub d s t = some s') :
+    s'.weight < s.weight := by
+  unfold stepSub at hs
+  split at hs
+  · simp at hs
+  · cases t <;> simp only [St.get, St.set] at hs <;> split at hs <;>
+      (try split at hs) <;> (try split at hs) <;> simp at hs <;> (try subst hs) <;>
+      simp_all [St.weight, Sub.weight] <;> omega
+
+theorem step_dec {d : Disp} {s s' : St} (t : Thr) (hs : step d s t = some s') :
+    s'.weight < s.weight := by
+  cases t with
+  | main => exact stepMain_dec hs
+  | p => exact stepSub_dec .p hs
+  | r => exact stepSub_dec .r hs
+  | w => exact stepSub_dec .w hs
+
+theorem run_bounded {d : Disp} {s s' : St} {ts : List Thr} (h : Run d s ts s') :
+    ts.length + s'.weight ≤ s.weight := by
+  induction h with
+  | nil => simp
+  | cons t hs _ ih => have := step_dec t hs; simp only [List.length_cons]; omega
+
+theorem main_none {d : Disp} {s : St} (h : stepMain d s = none) :
+    (s.main = .susp ∧ s.usr1 = false ∧ s.usr2 = false) ∨ ∃ e, s.main = .done e := by
+  unfold stepMain at h
+  split at h <;> (try split at h) <;> (try split at h) <;> simp_all
+
+theorem sub_none {d : Disp} {s : St} (t : Tid) (ha : s.subsAlive = true)
+    (h : stepSub d s t = none) :
+    s.get t = .exited ∨ s.get t = .finished ∨ (∃ e sg, s.get t = .failed e sg ∧ s.lock = true) ∨
+    (t = .p ∧ s.get t = .run [] ∧ ¬ (s.r = .finished ∧ s.w = .finished)) := by
+  unfold stepSub at h
+  simp only [ha, Bool.not_true, Bool.false_eq_true, if_false] at h
+  split at h <;> (try split at h) <;> (try split at h) <;> simp_all
+
+/-- No reachable non-final state is stuck. -/
+theorem progress {d : Disp} {ms ps rs ws : List Io} {s : St}
+    (h : Reach d (init ms ps rs ws) s) (hno : ∀ t, step d s t = none) : s.final = true := by
+  have hi := inv_reach h
+  have hm := main_none (hno .main)
+  rcases hm with ⟨hm, hu1, hu2⟩ | ⟨e, hm⟩
+  · exfalso
+    have ha : s.subsAlive = true := by simp [St.subsAlive, hm]
+    have hp := sub_none .p ha (hno .p)
+    have hr := sub_none .r ha (hno .r)
+    have hw := sub_none .w ha (hno .w)
+    simp only [St.get] at hp hr hw
+    have h2 := hi.usr1
+    have h3 := hi.lock
+    have h4 := hi.pfin
+    rw [hu1] at h2
+    -- nobody exited, so nobody holds the lock unless locked..promoted: not stuck
+    have nr : s.r ≠ .exited := by intro hh; simp [hh, past] at h2
+    have nw : s.w ≠ .exited := by intro hh; simp [hh, past] at h2
+    have np : s.p ≠ .exited := by intro hh; simp [hh, past] at h2
+    have hl : s.lock = false := by
+      cases hl : s.lock with
+      | false => rfl
+      | true =>
+        have := h3.mp hl
+        rcases hp with hp | hp | ⟨_, _, hp, _⟩ | ⟨_, hp, _⟩ <;>
+        rcases hr with hr | hr | ⟨_, _, hr, _⟩ | ⟨hr, _⟩ <;>
+        rcases hw with hw | hw | ⟨_, _, hw, _⟩ | ⟨hw, _⟩ <;>
+        simp_all [holds]
+    have hr' : s.r = .finished := by
+      rcases hr with hr | hr | ⟨_, _, _, hr⟩ | ⟨hr, _⟩ <;> simp_all
+    have hw' : s.w = .finished := by
+      rcases hw with hw | hw | ⟨_, _, _, hw⟩ | ⟨hw, _⟩ <;> simp_all
+    rcases hp with hp | hp | ⟨_, _, _, hp⟩ | ⟨_, _, hp⟩
+    · exact np hp
+    · rcases h4 hp with h | h | ⟨e, h⟩ <;> simp_all
+    · simp_all
+    · exact hp ⟨hr', hw'⟩
+  · simp [St.final, hm]
+
+/-! ### The property theorems -/
+
+section
+variable (d : Disp) (ms ps rs ws : List Io)
+
+/-- **terminates.**  From any reachable state (1) every run, under any
+scheduler, is at most `s.weight` steps long — there is no infinite run — and
+(2) a state in which no thread can make a step is final: the main thread has
+left sigsuspend and the process has ended.  So every maximal run ends with the
+process gone: lbzip2 cannot hang, whatever fails where, and in particular not
+with a writer/reader that died holding the stderr lock while other threads
+wait for it forever. -/
+theorem terminates {s : St} (h : Reach d (init ms ps rs ws) s) :
+    (∀ ts s', Run d s ts s' → ts.length + s'.weight ≤ s.weight) ∧
+    ((∀ t, step d s t = none) → s.final = true) :=
+  ⟨fun _ _ hr => run_bounded hr, progress h⟩
+
+/-- **never_zero.**  Once any write() has returned -1 (in any thread), the
+process cannot end with status 0. -/
+theorem never_zero {s : St} (h : Reach d (init ms ps rs ws) s) (hw : s.wfail = true)
+    {e : Ending} (hm : s.main = .done e) : e ≠ .exit 0 := by
+  have hi := inv_reach h
+  intro he
+  subst he
+  obtain ⟨f1, f2, f3⟩ := hi.succ (Or.inr (Or.inr hm))
+  rcases hi.wf hw with hb | ⟨e', hm', hne⟩
+  · simp [f1, f2, f3, Sub.bad] at hb
+  · rw [hm] at hm'; exact hne (Main.done.inj hm').symm
+
+/-- The same for any failed call, read or write: a thread that has had a
+failing call excludes status 0. -/
+theorem never_zero_any {s : St} (h : Reach d (init ms ps rs ws) s)
+    (hb : (s.p.bad || s.r.bad || s.w.bad) = true) {e : Ending} (hm : s.main = .done e) :
+    e ≠ .exit 0 := by
+  have hi := inv_reach h
+  intro he
+  subst he
+  obtain ⟨f1, f2, f3⟩ := hi.succ (Or.inr (Or.inr hm))
+  simp [f1, f2, f3, Sub.bad] at hb
+
+/-- **outcome.**  A process that does not end with status 0 ends with status 1,
+or dies from SIGPIPE / SIGXFSZ — and that only when the signal has its default
+action (with SIG_IGN inherited it is status 1). -/
+theorem outcome {s : St} (h : Reach d (init ms ps rs ws) s) {e : Ending}
+    (hm : s.main = .done e) (hne : e ≠ .exit 0) :
+    e = .exit 1 ∨ (e = .died SIGPIPE ∧ d.pipeDfl = true) ∨
+    (e = .died SIGXFSZ ∧ d.xfszDfl = true) := by
+  rcases (inv_reach h).fin e hm with h0 | h1
+  · exact absurd h0 hne
+  · exact h1
+
+/-- **diagnostic_iff.**  If every failing call of the run fails with the same
+errno `e` (one failing call; or a device that stays full, a pipe that stays
+broken), then when the process has ended unsuccessfully, stderr is non-empty
+iff `e ∉ {EPIPE, EFBIG}`. -/
+theorem diagnostic_iff (e : Errno) (hm : scriptUni e ms) (hp : scriptUni e ps)
+    (hr : scriptUni e rs) (hw : scriptUni e ws) {s : St}
+    (h : Reach d (init ms ps rs ws) s) {x : Ending} (hd : s.main = .done x)
+    (hne : x ≠ .exit 0) : s.stderr = true ↔ silent e = false := by
+  have h2 := inv2_reach hm hp hr hw h
+  exact ⟨h2.quiet, h2.fin x hd hne⟩
+
+/-- A successful end has an empty stderr (nothing is ever printed on the
+success path of this model). -/
+theorem silent_success (e : Errno) (hm : scriptUni e ms) (hp : scriptUni e ps)
+    (hr : scriptUni e rs) (hw : scriptUni e ws) {s : St}
+    (h : Reach d (init ms ps rs ws) s) (hs : silent e = true) : s.stderr = false := by
+  have h2 := inv2_reach hm hp hr hw h
+  cases hst : s.stderr with
+  | false => rfl
+  | true => have := h2.quiet hst; simp [hs] at this
+
+end
+
+/-! ### The hypotheses are satisfiable: concrete runs -/
+
+namespace Ex
+
+def dfl : Disp := ⟨true, true⟩
+def okR : Io := ⟨.read, none⟩
+def okW : Io := ⟨.write, none⟩
+
+/-- compression, the writer's second write() fails with EPIPE -/
+def s0 : St := init [] [okW, okW] [okR, okR] [okW, ⟨.write, some EPIPE⟩, okW]
+
+def runT (s : St) (ts : List Thr) : Option St :=
+  ts.foldlM (fun s t => step dfl s t) s
+
+theorem reach_runT {s0 s s' : St} (h : Reach dfl s0 s) (ts : List Thr)
+    (hr : runT s ts = some s') : Reach dfl s0 s' := by
+  induction ts generalizing s with
+  | nil => simp [runT] at hr; subst hr; exact h
+  | cons t l ih =>
+    simp only [runT, List.foldlM_cons, Option.bind_eq_bind] at hr
+    cases hs : step dfl s t with
+    | none => rw [hs] at hr; simp at hr
+    | some s1 =>
+      rw [hs] at hr
+      exact ih (Reach.step t h hs) hr
+
+/-- main suspends; W writes once, fails, locks stderr, (no message), promotes
+SIGPIPE, raises SIGUSR1, exits; main wakes and dies from SIGPIPE -/
+def sched : List Thr := [.main, .w, .w, .w, .w, .w, .w, .w, .main]
+
+def sEnd : St := (runT s0 sched).getD s0
+
+theorem sEnd_run : runT s0 sched = some sEnd := by decide
+
+theorem sEnd_reach : Reach dfl s0 sEnd := reach_runT Reach.init sched sEnd_run
+
+example : sEnd.main = .done (.died SIGPIPE) ∧ sEnd.stderr = false ∧ sEnd.wfail = true := by
+  decide
+
+example : Ending.died SIGPIPE ≠ .exit 0 :=
+  never_zero dfl _ _ _ _ sEnd_reach (by decide) (e := .died SIGPIPE) (by decide)
+
+example := outcome dfl _ _ _ _ sEnd_reach (e := .died SIGPIPE) (by decide) (by decide)
+
+example : sEnd.stderr = true ↔ silent EPIPE = false :=
+  diagnostic_iff dfl _ _ _ _ EPIPE (by simp [scriptUni]) (by simp [scriptUni, okW])
+    (by simp [scriptUni, okR]) (by simp [scriptUni, okW]) sEnd_reach
+    (x := .died SIGPIPE) (by decide) (by decide)
+
+example := (terminates dfl _ _ _ _ sEnd_reach).2 (by intro t; cases t <;> decide)
+
+/-- the same with EIO: status 1 and a diagnostic -/
+def s1 : St := init [] [okW, okW] [okR, okR] [okW, ⟨.write, some EIO⟩, okW]
+def sEnd1 : St := (runT s1 sched).getD s1
+theorem sEnd1_reach : Reach dfl s1 sEnd1 :=
+  reach_runT Reach.init sched (by decide : runT s1 sched = some sEnd1)
+
+example : sEnd1.main = .done (.exit 1) ∧ sEnd1.stderr = true := by decide
+example : sEnd1.stderr = true ↔ silent EIO = false :=
+  diagnostic_iff dfl _ _ _ _ EIO (by simp [scriptUni]) (by simp [scriptUni, okW])
+    (by simp [scriptUni, okR]) (by simp [scriptUni, okW]) sEnd1_reach
+    (x := .exit 1) (by decide) (by decide)
+
+end Ex
+
 end LbzVerif.Props.C21
